@@ -115,6 +115,7 @@ def standin_save_load(tier, seed):
         cases.append(("logistic", dict(source_dimension=2), 3, "gaussian-scalar", None, None, "hand"))
         cases.append(("logistic", dict(source_dimension=2), 3, "gaussian-diagonal", None, None, "live"))
         cases.append(("linear", dict(source_dimension=1), 3, "gaussian-scalar", None, None, "live"))
+        kept_models = []
         for q, (kind, kw, n_ft, noise, feats, inst, origin) in enumerate(cases):
             what = f"{kind}{kw or ''} {noise}" + (f" features {feats}" if feats else "") + (f" instance name {inst!r}" if inst else "") + (" hand-written parameters" if origin == "hand" else "")
             evals += 1
@@ -183,6 +184,27 @@ def standin_save_load(tier, seed):
                 violations.append(dict(key=f"{what}: saving the reloaded model does not reproduce the file (keys {sorted(diff)})"))
             if len(samples) < 2:
                 samples.append(dict(model=what, keys=sorted(f1)))
+            kept_models.append((what, m))
+        # a file that is overwritten: loading a path gives what the file holds NOW, whatever was loaded from that path before
+        if len(kept_models) >= 2:
+            shared = os.path.join(tmp, "shared.json")
+            for what, m in (kept_models[0], kept_models[-1], kept_models[0]):
+                evals += 1
+                distinct.add(("shared path", what))
+                try:
+                    m.save(shared)
+                    back = BaseModel.load(shared)
+                except Exception as e:
+                    violations.append(dict(key=f"{what}: save / load through a path used before raises {type(e).__name__}: {str(e)[:80]}"))
+                    break
+                a, b = m.parameters, back.parameters
+                def flat_close(x, y):      # (values only: the 0-d / (1,) shape of a scalar noise level is the recorded finding, not this clause)
+                    x, y = torch.as_tensor(x, dtype=torch.float64).reshape(-1), torch.as_tensor(y, dtype=torch.float64).reshape(-1)
+                    return x.shape == y.shape and bool(torch.allclose(x, y, rtol=2e-6, atol=1e-7))
+                if set(a) != set(b) or any(not flat_close(a[k], b[k]) for k in a) or m.dimension != back.dimension or list(m.features) != list(back.features):
+                    violations.append(dict(key="loading a path that was written again returns what was loaded from it before, not the file's current content",
+                                           model=what))
+                    break
     finally:
         shutil.rmtree(tmp, ignore_errors=True)
     uniq = {v["key"]: v for v in violations}
